@@ -16,7 +16,8 @@ func init() { commands["api"] = cmdApi }
 //
 //	-mode alg     enumerate the algebra input space on the real functions
 //	-mode copy    mutate values returned by the copying getters
-//	-mode help    wait/ask helpers in known scenarios
+//	-mode help    wait/ask helpers in known scenarios, the async helpers
+//	              through every timing of the awaited activation
 //	-mode total   totality sweep (coordinator; spawns -mode worker processes)
 //	-mode worker  one crash-isolated worker of the sweep
 //	-mode list    print the call list of the sweep
@@ -42,6 +43,7 @@ func cmdApi(args []string) int {
 	phase := fs.String("phase", "", "one: phase")
 	cls := fs.String("cls", "", "one: argument class")
 	deadline := fs.Int("deadline", 1500, "total: per-call deadline (ms)")
+	asyncReps := fs.Int("asyncreps", 1, "help: repetitions of every async helper case (jittered)")
 	fs.Parse(args)
 	apidrv.SetSeed(*seed)
 
@@ -71,6 +73,7 @@ func cmdApi(args []string) int {
 			apidrv.RunCopy(o)
 		case "help":
 			apidrv.RunHelpers(o, *seed)
+			apidrv.RunAsync(o, *seed, *asyncReps)
 		}
 		o.Close()
 		b, _ := json.Marshal(map[string]any{"lines": o.Lines, "stats": o.Stats})
